@@ -26,6 +26,15 @@ CHECKS = {
  "C07": ("runtime monitor: panic monitor + exact heap-allocation accounting (ReadMemStats deltas) + RLIMIT_AS child processes + re-encode fixpoint over mutation families",
          "Hostile inputs (every truncation, bit flips, every count field inflated up to 2^32-1, bad type/byte-order codes, 7000-level nesting, random bytes, malformed hex, grammar-generated JSON with arbitrary coordinates shapes, hand-built Geometry values) are fed to the decoders; each call must return a well-formed geometry or an error, allocate <= K*len+C bytes, never panic or kill the process, and successful decodes must be fixpoints of encode/decode.",
          "'Bounded by a constant multiple' is decided in the restated form dAlloc <= 64*len+64KiB (WKB/hex), 256*len+64KiB (GeoJSON); inputs <= 64 KiB.", "§4 C07"),
+ "C08": ("runtime monitor: round-trip oracle (inverse∘forward and forward∘inverse∘forward) over generated CRS definitions and positions, fresh SR objects per call",
+         "Every projection form with parameters in its documented validity, every built-in ellipsoid name (incl. sphere) plus a+b / a+rf, datum none/named/towgs84, units and prime meridians is round-tripped at positions of its usable region against the same-datum geographic system and, inside area-of-use boxes or with small shifts on WGS84-like ellipsoids, against WGS84; tolerance 1e-6 deg and 1 cm (judged on the ground when a datum shift is involved), no error anywhere; the (*SR).Transformers() closure pair is checked in radians.",
+         "WGS84 partner restricted to areas of use (dropped ellipsoidal height); random towgs84 small (first-order inverse of the Helmert shift); longitudes inside (-180,180).", "§4 C08"),
+ "C09": ("runtime monitor: differential against proj4js 2.3.12 executed live under node + recorded corpus; independent Snyder/Karney-Krueger/Helmert reference formulas; constant-table comparison",
+         "Generated transformations (geographic->projected, projected->geographic, projected->projected across datums; named / 3- / 7-parameter / no datum; m/ft/us-ft/to_meter; prime meridians) are executed by the port and by the bundled proj4js original (live under node, and replayed from a committed corpus of 6900 recorded scenarios) and must agree to 0.1 mm / 1e-9 deg; forward projections must agree within 5 mm with formulas written independently from the literature; every built-in ellipsoid/datum/prime-meridian/unit entry must equal proj4js's constants.",
+         "node is used when present (coverage.counters oracle.live_workers), otherwise corpus only; oracle B excludes spherical transverse Mercator (proj4js quirk, A authoritative), restricts flattening to real-ellipsoid range and the equidistant conic to 20 deg around its parallels (series truncation shared with the original).", "§4 C09"),
+ "C10": ("runtime monitor: history oracle (shared transformer vs freshly built single-use transformer after every call) + instrumented/failing transformers for Geom.Transform on all 8 types",
+         "Transformers built once for pairs of references (WGS84-hop pairs, non-default +axis, ordinary) are driven through random interleaved call histories and every result is compared (4 ulp, error outcome, no panic) with a transformer built from freshly parsed definitions; Geom.Transform is checked with a logging affine transformer (type/nesting/vertex order/bitwise image/input untouched), nil (identity), a transformer failing on every possible k-th call (exact error, no panic) and a real datum-shifting transformer vertex by vertex.",
+         "Histories are sequential (concurrent use of one transformer is not claimed).", "§4 C10"),
  "C11": ("runtime monitor: brute-force multiset reference model + invariant walker on hooked node structure after every operation of generated insert/delete histories",
          "Histories (grow, drain to empty, refill, oscillation around split/underflow sizes, ordered/reverse/random deletes, absent and duplicate objects) for all valid branching parameters are run against the real tree; after EVERY operation Size/Delete results/6 SearchIntersect queries are compared with a brute-force multiset scan and the verif-tagged snapshot of the nodes is walked for balance, Depth, exact envelopes, fan-out and object count.",
          "Needs hook H1 (read-only snapshot, build tag verif); objects comparable as the property states; parent/level consistency recorded only.", "§4 C11"),
@@ -41,6 +50,9 @@ CHECKS = {
  "C15": ("runtime monitor: truth-by-construction oracle (perturbation / permutation / rotation positives; typed, structural and displacement negatives) + symmetry check",
          "For base geometries of all eight types, derived partners with a known truth value are compared in both directions: true for <0.9 tol perturbations combined with documented reorderings and ring rotations; false for other types, inserted/deleted members (incl. empty ones) or vertices, reversed line strings, single-vertex displacements > tol; g.Similar(h) must equal h.Similar(g) always.",
          "Members separated by >> tol, closed rings with a unique anchor vertex (domain restrictions stated by the property).", "§4 C15"),
+ "C20": ("runtime monitor: pairwise transformer agreement between harness-printed PROJ.4 and WKT spellings of one system; registry/Equal/nil-transformer laws; .prj read-back",
+         "Generated systems (5 WKT projection names + geographic; spheroid by a,1/f; TOWGS84 3/7/none; metre/foot/US foot; ESRI and OGC parameter names) are printed both ways by the harness and must transform identically (1e-6 m forward, 1e-11 deg inverse, also in mixed pairs); registered names must behave as their published definitions; same text parsed twice is Equal; NewTransform is nil exactly when Equal(…,3) for identical / 1-ulp / 1e-9 / name / units / datum-parameter-count variants, without panicking; (*shp.Decoder).SR() equals proj.Parse of the .prj text.",
+         "Definitions without TOWGS84 are compared from the same-spheroid geographic system spelled both ways (WKT DATUM without TOWGS84 and +a +rf without +datum are different datum statements).", "§4 C20"),
  "C17": ("runtime monitor: independent OGC WKT recursive-descent parser as oracle, bitwise comparison",
          "The text produced for every generated geometry of the five supported types must be accepted by an independently written strict OGC tagged-text parser and parse to a bitwise-identical geometry; MultiPoint, GeometryCollection and *Bounds must be rejected with an error.",
          "Trusts the harness's 200-line WKT parser and strconv.ParseFloat; members with >= 1 vertex only (as the property states).", "§4 C17"),
